@@ -24,10 +24,10 @@ func Run(m *mon.M) {
 	m.Require("dist.near_decision_boundary", 5000)
 	m.Require("maxdist.through_antipode", 3000)
 	m.Require("pair.crossing", 1000)
-	m.Stream("point-edge", m.N(250000, 20000000), pointEdge)
-	m.Stream("edge-pair", m.N(60000, 5000000), edgePair)
-	m.Stream("interp", m.N(100000, 8000000), interp)
-	m.Stream("polyline", m.N(15000, 1000000), polyline)
+	m.Stream("point-edge", m.N(250000, 8000000), pointEdge)
+	m.Stream("edge-pair", m.N(60000, 2000000), edgePair)
+	m.Stream("interp", m.N(100000, 3000000), interp)
+	m.Stream("polyline", m.N(15000, 400000), polyline)
 }
 
 func hp(p s2.Point) ref.H { return ref.HV(gen.V(p)) }
